@@ -145,7 +145,7 @@ func genC05(g *Gen, tier string) *Case {
 	// in a third of the cases the estimate is read with fixed flags after every update, so that
 	// "the estimate grows with the number of distinct elements" is checked step by step; small
 	// key spaces ("user-<i>") make several elements share a register
-	track := g.Chance(0.35)
+	track := g.Chance(0.35) && n <= 60 // every tracked step costs one exact-rational check in the model
 	wc, wr := g.Intn(2), g.Intn(2)
 	for j := 0; j < n; j++ {
 		x := []byte(fmt.Sprintf("e%d-%d", g.Intn(1<<30), j))
